@@ -37,7 +37,9 @@ fn grid(ctx: &RunCtx) -> Vec<GenPoint> {
     let mut rot = 0u64;
     for &bits in &BITS {
         let mut cap = 1;
-        while cap <= max_cap {
+        // beyond (64, 32): small bit lengths go on until bits*capacity = 2048 (8192 thorough), so party indices >= 256 occur
+        let max_total = if ctx.tier == Tier::Quick { 2048 } else { 8192 };
+        while cap <= max_cap || bits * cap <= max_total {
             for ext in 1..=6 {
                 // every degree for small parameter sets, round-robin for the large ones
                 if bits * cap <= 64 || (rot as usize % 6) + 1 == ext {
@@ -221,7 +223,7 @@ pub fn def() -> PropertyDef {
     PropertyDef {
         id: "C11",
         level: "exploration",
-        rule: "Enumerated grid: bit length in {1,2,4,8,16,32,64} x capacity in {1,2,..,32} (thorough: ..128) x extension degree (all six for small \
+        rule: "Enumerated grid: bit length in {1,2,4,8,16,32,64} x capacity in {1,2,..,32} (thorough: ..128), continued for small bit lengths until bits*capacity = 2048 (thorough 8192) so that party indices >= 256 occur, x extension degree (all six for small \
                sets, round-robin for large ones), freshly constructed (no cache). Oracle on Ristretto: value generator == basepoint; blinding \
                generator k == SHA3-512(\"RISTRETTO_MASKING_BASEPOINT_<k+1>\") mapped to the group; vector generator (party i, index j) == the \
                independent SHAKE256 chain derivation, party-major; compressed forms == compress(point); all compressed generators of the set \
